@@ -46,7 +46,7 @@ PROPS = {
     ),
     "C10": dict(
         title="Rounding a datetime yields the correct multiple of the increment for every mode",
-        verus=["round"],
+        verus=["round", "rounders"],
         kani_quick=[], kani_thorough=[],
         design_ref="DESIGN.md section 4, C10",
     ),
